@@ -614,10 +614,58 @@ fn gen_per_element() -> BoxedStrategy<Value> {
     per_element_cases(rules::rooted(cfg), gen::data_docs())
 }
 
+
+const KINDS: u64 = 8;
+fn check_sizes(case: &Value, obs: &mut Obs) -> Result<(), String> {
+    let n = case["n"].as_u64().unwrap_or(1) as usize;
+    let k = case["k"].as_u64().unwrap_or(0);
+    let ni = n as i64;
+    let arr = sized_array(n);
+    let (rule, data) = match k {
+        0 => (json!({"var": [format!("xs.{}", n - 1), "dflt"]}), json!({"xs": arr})),
+        1 => (json!({"var": [format!("xs.{}", n), "dflt"]}), json!({"xs": arr})),
+        2 => (json!({"var": [-ni, "dflt"]}), arr),
+        3 => (json!({"var": [-ni - 1, "dflt"]}), arr),
+        4 => (json!({"var": [ni - 1, "dflt"]}), json!(sized_string(n))),
+        5 => (json!({"var": [format!("s.{}", n), "dflt"]}), json!({"s": sized_string(n)})),
+        6 => {
+            let mut m = serde_json::Map::new();
+            for i in 0..n {
+                m.insert(format!("k{}", i), json!(i));
+            }
+            (json!({"var": [format!("o.k{}", n - 1), "dflt"]}), json!({"o": m}))
+        }
+        _ => (json!({"var": [format!("k{}", "x".repeat(n)), "dflt"]}), json!({format!("k{}", "x".repeat(n)): 5})),
+    };
+    size_case(&rule, &data, obs, &format!("size kind {} n {}", k, if n < 1000 { "~2^8" } else if n < 10000 { "~2^12" } else { "~2^16" }))
+}
+
+fn fixed_sizes() -> Vec<Value> {
+    let mut out = vec![];
+    for n in SIZE_EDGES {
+        for k in 0..KINDS {
+            out.push(json!({"n": n, "k": k}));
+        }
+    }
+    out
+}
+
 pub fn property() -> Property {
     Property {
         id: "C11",
         subs: vec![
+            Sub {
+                name: "size_boundaries",
+                about: "arrays, strings and objects of exactly 255 ... 65537 elements / characters / keys: the last index and the first absent one (positive, negative, as path component and as integer key), the last key of an n-key object, a key that is n characters long, against the reference model.",
+                nontrivial: "every case.",
+                strategy: None,
+                fixed: Some(fixed_sizes),
+                fixed_exhaustive: true,
+                check: check_sizes,
+                quick: 0,
+                thorough: 0,
+                small_stack: false,
+            },
             Sub {
                 name: "fuzz_corpus_replay",
                 about: "every committed corpus input and saved artifact of the libFuzzer target fz_path - one application of var (data document, path, default) whose operands are written by the fuzzer as text lines (a line that parses as JSON is that value, any other line is a raw string such as ` 0x1F ` or `12px`; operands literal or through var) - replayed through the target's own body against the reference model; the committed corpus is the coverage-distinct set distilled from campaigns on the unchanged tree, so each input reaches a different piece of the implementation. The thorough tier additionally runs the coverage-guided campaign.",
